@@ -136,6 +136,7 @@ fn spaces(id: &str, tier: Tier) -> Vec<Box<dyn Space>> {
             v.push(Box::new(scale_family(true)));
             v.push(Box::new(sorted_run_family()));
             v.push(Box::new(r8_metadata_family()));
+            v.push(Box::new(late_member_family()));
             v.push(Box::new(unicode_family()));
             if t {
                 v.push(Box::new(ms_a_depth3()));
@@ -150,6 +151,17 @@ fn spaces(id: &str, tier: Tier) -> Vec<Box<dyn Space>> {
             v.push(Box::new(scale_family(false)));
             v.push(Box::new(relation_family()));
             v.push(Box::new(unicode_family()));
+            v.push(Box::new(late_member_family()));
+            // argument strings that are class names of the mapping (obfuscated names of other blocks, originals, arrays)
+            {
+                let mut alpha = Vec::new();
+                for a in ["a.a", "b.c", "x.Foo", "a.a[]", "int"] {
+                    for n in ["p", "q"] {
+                        alpha.push(method(None, None, n, a, Orig::None, "x"));
+                    }
+                }
+                v.push(Box::new(SeqSpace::new("by-params: arguments that are class names of the mapping", vec![class("a.a", "b.c"), class("x.Foo", "a.a")], alpha, 3)));
+            }
             // noise lines (incl. R8's indented member comments) inside inline groups: "followed by" looks through them
             v.push(Box::new(ms_e(if t { 2 } else { 1 })));
             v.push(Box::new(r8_metadata_family()));
